@@ -96,3 +96,32 @@ Proof.
   rewrite (TypeDomProofs.typedom_parse d norm silent H), (TypeDomProofs.typedom_parse d' norm silent' H').
   rewrite <- (denote_c_decl norm d), <- (denote_c_decl norm d'), E. reflexivity.
 Qed.
+
+(* ---------- CREATE TYPE ... AS OBJECT, CREATE SCHEMA with AUTHORIZATION / COMMENT ----------------------------------------------------------------- *)
+From SDP Require TypeObj TypeObjProofs SchemaX SchemaXProofs.
+Definition c_tobj (o : TypeObj.tobj) : TypeObj.tobj :=
+  TypeObj.mkTObj "CREATE" "TYPE" (TypeObj.o_schema o) (TypeObj.o_name o) "AS" (TypeObj.o_base o) (TypeObj.o_first o) (TypeObj.o_rest o).
+Lemma denote_c_tobj norm o : TypeObj.denote norm (c_tobj o) = TypeObj.denote norm o.
+Proof. destruct o; reflexivity. Qed.
+Theorem typeobj_keyword_case : forall o o' norm silent silent',
+  TypeObj.wf norm o = true -> TypeObj.wf norm o' = true -> c_tobj o = c_tobj o' ->
+  parse_lexemes norm silent (TypeObj.lexemes o) = parse_lexemes norm silent' (TypeObj.lexemes o').
+Proof.
+  intros o o' norm silent silent' H H' E.
+  rewrite (TypeObjProofs.typeobj_parse o norm silent H), (TypeObjProofs.typeobj_parse o' norm silent' H').
+  rewrite <- (denote_c_tobj norm o), <- (denote_c_tobj norm o'), E. reflexivity.
+Qed.
+Definition c_schx (x : SchemaX.schx) : SchemaX.schx :=
+  SchemaX.mkSchX "CREATE" "SCHEMA" (match SchemaX.x_ine x with Some _ => Some ("IF", "NOT", "EXISTS") | None => None end) (SchemaX.x_name x)
+                 (SchemaX.x_auth x) (match SchemaX.x_comment x with Some (_, e, s) => Some ("COMMENT", e, s) | None => None end).
+Lemma denote_c_schx norm x : SchemaX.denote norm (c_schx x) = SchemaX.denote norm x.
+Proof. destruct x as [c s [[[a b] e]|] n [u|] [[[k q] l]|]]; reflexivity. Qed.
+(* COMMENT 'text' and COMMENT = 'text' are different statements with the same entity: the '=' is not canonicalised here *)
+Theorem schema_keyword_case : forall x x' norm silent silent',
+  SchemaX.wf norm x = true -> SchemaX.wf norm x' = true -> c_schx x = c_schx x' ->
+  parse_lexemes norm silent (SchemaX.lexemes x) = parse_lexemes norm silent' (SchemaX.lexemes x').
+Proof.
+  intros x x' norm silent silent' H H' E.
+  rewrite (SchemaXProofs.schx_parse x norm silent H), (SchemaXProofs.schx_parse x' norm silent' H').
+  rewrite <- (denote_c_schx norm x), <- (denote_c_schx norm x'), E. reflexivity.
+Qed.
